@@ -36,6 +36,11 @@ EXTRA = {   # additional checks expected to notice a mutant
     'C18-init-overwrites-metadata': ['C05'],
     'C08-remove-committed-any-txn': ['C06'],
     'C05-setdefault-no-readback': ['C12'],
+    'C10-pull-clock-before-lock': ['C04'],
+    'C07-cull-removes-before-commit': ['C08', 'C09'],
+    'C12-reverse-iteration-pages-wrong-way': ['C03'],
+    'C12-int-key-bit-length': ['C02'],
+    'C20-fanout-pickle-drops-shard-count': ['C18', 'C13'],
     'C08-cull-deletes-more-than-collected': ['C09'],
     'C03-set-culls-only-on-insert': ['C09'],
     'C05-str-keys-builtin-hash': ['C13', 'C15'],
